@@ -19,6 +19,19 @@ if TYPE_CHECKING:
 logger = logging.getLogger(__name__)
 
 
+def _apply_capacity(resource) -> int | float:
+    """Put in effect the configured capacity times the factor of every open window."""
+    new_capacity = getattr(resource, "_fault_base_capacity", resource._capacity)
+    for factor in getattr(resource, "_fault_capacity_factors", []):
+        new_capacity = new_capacity * factor
+    # Move available by the same amount as capacity, so that available plus what
+    # is held always equals capacity. Available is negative while earlier grants
+    # exceed a reduced capacity: nothing is admitted until enough is released.
+    resource._available += new_capacity - resource._capacity
+    resource._capacity = new_capacity
+    return new_capacity
+
+
 @dataclass(frozen=True)
 class ReduceCapacity:
     """Temporarily reduce a resource's capacity.
@@ -42,15 +55,15 @@ class ReduceCapacity:
         resource = ctx.resources[self.resource_name]
         resource_name = self.resource_name
         factor = self.factor
-        original_capacity = resource._capacity
 
         def activate(e: Event) -> None:
-            new_capacity = original_capacity * factor
-            resource._capacity - new_capacity
-            resource._capacity = new_capacity
-            # Clamp available to not exceed new capacity
-            if resource._available > new_capacity:
-                resource._available = new_capacity
+            # Capacity windows on one resource may overlap: the resource keeps its
+            # configured capacity and the factors of the open windows.
+            factors = getattr(resource, "_fault_capacity_factors", [])
+            if not factors:
+                resource._fault_base_capacity = resource._capacity  # type: ignore[attr-defined]
+            resource._fault_capacity_factors = [*factors, factor]  # type: ignore[attr-defined]
+            new_capacity = _apply_capacity(resource)
             logger.info(
                 "[FaultInjection] Reduced '%s' capacity to %.1f (factor=%.2f) at %s",
                 resource_name,
@@ -60,14 +73,17 @@ class ReduceCapacity:
             )
 
         def deactivate(e: Event) -> None:
-            capacity_increase = original_capacity - resource._capacity
-            resource._capacity = original_capacity
-            # Restore available by the same amount capacity increased
-            resource._available += capacity_increase
+            # Only this window's factor goes away; the configured capacity is back
+            # once no window is open.
+            factors = list(getattr(resource, "_fault_capacity_factors", []))
+            if factor in factors:
+                factors.remove(factor)
+            resource._fault_capacity_factors = factors  # type: ignore[attr-defined]
+            new_capacity = _apply_capacity(resource)
             logger.info(
                 "[FaultInjection] Restored '%s' capacity to %.1f at %s",
                 resource_name,
-                original_capacity,
+                new_capacity,
                 e.time,
             )
 
